@@ -1110,7 +1110,7 @@ fn main() {
     s.describe_check("checker_seq", "every sequential history (intervals widened) accepted; one read of a never-written value rejected");
     s.run_cases(
         "checker_seq",
-        s.scale(10_000, 200_000),
+        s.scale(20_000, 400_000),
         || {
             (
                 proptest::collection::vec((any::<u8>(), any::<u8>()), 1..40),
@@ -1127,14 +1127,14 @@ fn main() {
     s.describe_check("sched", "client tasks + shard actors on a current-thread runtime, schedule = generated yield counts; one history per shard count");
     s.run_cases(
         "sched",
-        s.scale(8_000, 400_000),
+        s.scale(30_000, 1_000_000),
         || case_strategy(2..=5, 1..=25, shard_counts.clone()),
         |c, ctx| check_case(c, Mode::Sched, &s, ctx),
     );
     s.describe_check("conn_clients", "the same programs through concurrent connection handlers (hook) over in-memory duplex streams, sharing one ShardedActorState");
     s.run_cases(
         "conn_clients",
-        s.scale(2_000, 100_000),
+        s.scale(8_000, 250_000),
         || case_strategy(2..=5, 1..=20, vec![1usize, 4, 16]),
         |c, ctx| check_case(c, Mode::Conn, &s, ctx),
     );
@@ -1142,7 +1142,7 @@ fn main() {
         s.describe_check("stress", "8-16 clients on a 4-worker multi-thread runtime; a violating history is saved for replay through checker_hand");
         s.run_cases(
             "stress",
-            s.scale(0, 1_000),
+            s.scale(0, 2_000),
             || case_strategy(8..=16, 10..=25, vec![1usize, 2, 4, 16]),
             |c, ctx| check_case(c, Mode::Stress, &s, ctx),
         );
